@@ -47,6 +47,7 @@ type HarnessResult struct {
 	Error         string
 	EndKinds      map[string]int
 	TermCount     int
+	SolverWhat    map[string]int
 }
 
 type workQueue struct {
@@ -189,6 +190,14 @@ func RunHarness(p *Program, spec HarnessSpec, workers int, maxSamples int, deadl
 				}
 				res.InitProblems = appendUnique(res.InitProblems, m.initProblems...)
 				res.TermCount += m.tt.Size()
+				if m.solverWhat != nil {
+					if res.SolverWhat == nil {
+						res.SolverWhat = map[string]int{}
+					}
+					for k, v := range m.solverWhat {
+						res.SolverWhat[k] += v
+					}
+				}
 				mu.Unlock()
 			}()
 			for {
@@ -239,6 +248,7 @@ func (s *Stats) add(o Stats) {
 	s.Concretizations += o.Concretizations
 	s.Assertions += o.Assertions
 	s.DomainDecided += o.DomainDecided
+	s.IntervalDecided += o.IntervalDecided
 }
 
 func (s *SolverStats) add(o SolverStats) {
@@ -354,6 +364,8 @@ func (m *Machine) exploreItem(fn *ssa.Function, prefix []PrefixEntry, q *workQue
 func (m *Machine) resetTerms() {
 	m.tt = NewTermTable()
 	m.constCache = map[*ssa.Const]value{}
+	m.solver.PopTo(0)
+	m.solver.ResetBase()
 	m.solver.Restart()
 	m.dom = newDomState()
 	m.solver.Push()
